@@ -110,7 +110,8 @@ func runC16(env *Env, tier string) {
 		if err != nil {
 			env.Fatalf("sqlite: %v", err)
 		}
-		env.OnCleanup(func() { keeper.Close() })
+		env.OnCleanup(func() { keeper.Close(); SQLFaults.Reset() })
+		SQLFaults.Reset()
 	}
 	twins := nsess > 1 && ch.Chance("twins", 1, 3)
 	twinKey := []string{config.SenderCompID, config.SenderSubID, config.SenderLocationID, config.TargetCompID, config.TargetSubID,
@@ -310,6 +311,18 @@ func runC16(env *Env, tier string) {
 				readsWithData++
 			}
 		case 8:
+			if kind == "sql" && ch.Chance("refreshfault", 1, 3) {
+				// the database cannot be read at this moment: the operation reports the error and changes nothing
+				SQLFaults.Arm("select", 1)
+				label = "Refresh while the database refuses the SELECT"
+				err := u.st.Refresh()
+				SQLFaults.Arm("select", 0)
+				if err == nil {
+					env.Violate("C16/sql/failure-swallowed", "%s reported success", label)
+				}
+				env.Stat("fault_sql_select_fails_in_refresh")
+				break
+			}
 			label = "Refresh"
 			if err := u.st.Refresh(); err != nil {
 				env.Violate("C16/"+kind+"/error", "%s: %v", label, err)
@@ -320,6 +333,19 @@ func runC16(env *Env, tier string) {
 			structural++
 			env.Stat("probe_refresh")
 		case 9:
+			if kind == "sql" && ch.Chance("resetfault", 1, 3) {
+				// one of the statements of the reset is refused: the operation reports the error and changes nothing
+				stmt := []string{"delete", "update"}[ch.Choose("resetfaultstmt", 2)]
+				SQLFaults.Arm(stmt, 1)
+				label = "Reset while the database refuses the " + stmt
+				err := u.st.Reset()
+				SQLFaults.Arm(stmt, 0)
+				if err == nil {
+					env.Violate("C16/sql/failure-swallowed", "%s reported success", label)
+				}
+				env.Stat("fault_sql_" + stmt + "_fails_in_reset")
+				break
+			}
 			label = "Reset"
 			if err := u.st.Reset(); err != nil {
 				env.Violate("C16/"+kind+"/error", "%s: %v", label, err)
